@@ -18,7 +18,10 @@ def gen_case(rng, tier):
         if rng.random() < 0.8:
             ops.append("iso.load res=%s thr=%d" % (r, rng.choice([1, 1, 2, 3])))
         else:
-            ops.append("flow.load res=%s thr=%d" % (r, rng.choice([1, 2, 5])))
+            # a rejecting rule, or a throttling rule: an admitted request may have been queued first (seed C20-f)
+            ops.append("flow.load res=%s thr=%d%s" % (r, rng.choice([1, 2, 5]), rng.choice(["", " maxq=200", " maxq=2000"])))
+    if len(ress) == 1 and ops[-1].startswith("iso.load") and rng.random() < 0.3:
+        ops.append("flow.load res=a thr=%d maxq=%d" % (rng.choice([2, 5]), rng.choice([200, 2000])))
     while len(ops) < 3:
         ops.append("adv ms=0")
     ops.append("svc role=%s fallback=%d" % (rng.choice(["server", "client"]), rng.choice([0, 1])))
